@@ -11,7 +11,10 @@ git -C "$W" apply "$D/patch.diff" || { echo "patch does not apply"; exit 2; }
 sh -c "$CC -o /tmp/demo_$ID.patched" >/dev/null 2>&1 && ( cd "$D"; timeout 600 /tmp/demo_$ID.patched >/tmp/demo_$ID.patched.out 2>&1 ); echo "demo on patched tree: exit $?"
 cd /verif
 for c in "$@"; do
+  # the evidence file of the registered check describes the UNCHANGED tree: keep it
+  cp evidence/$c.json /tmp/seed_evidence_$c.json 2>/dev/null
   VERIF_REPO=$W ./check $c quick > /tmp/seed_${ID}_$c.out 2>&1; rc=$?
+  cp /tmp/seed_evidence_$c.json evidence/$c.json 2>/dev/null
   echo "check $c on patched tree: exit $rc; $(grep -c '^VIOLATION' /tmp/seed_${ID}_$c.out) VIOLATION lines; $(grep '^VIOLATION' /tmp/seed_${ID}_$c.out | head -1)"
   grep -- '->' /tmp/seed_${ID}_$c.out | head -2
 done
